@@ -92,7 +92,11 @@ fn round_trip(a: &ast::Aidl) -> Result<(), (String, String)> {
         let sig = if patched == *a { "ron-oneway-flag-lost" } else { "ron-round-trip-differs" };
         return Err((sig.to_string(), first_difference(a, &back)));
     }
-    // serde_json alongside (labelled separately so that a RON escaping quirk can be told apart)
+    // serde_json alongside (labelled separately so that a RON escaping quirk can be told apart); serde_json
+    // refuses documents nested deeper than 128 levels, which a type nested ~40 deep exceeds: skipped then
+    if astx::all_types(a).iter().map(|t| t.1).max().unwrap_or(0) > 20 {
+        return Ok(());
+    }
     let js = serde_json::to_string(a).map_err(|e| ("json-serialize-failed".to_string(), e.to_string()))?;
     let back: ast::Aidl = serde_json::from_str(&js).map_err(|e| ("json-deserialize-failed".to_string(), e.to_string()))?;
     if back != *a {
